@@ -387,6 +387,11 @@ func (ws *WatchingSource) updateDirWatches(oldResolvedCfgDir, resolvedCfgDir str
 			resolvedCfgDir, addErr)
 		return
 	}
+	if oldResolvedCfgDir == filepath.Dir(filepath.Clean(ws.path)) {
+		// The config path's own directory must stay watched: replacements of
+		// the config path itself (rename-over, new symlink) only show up there.
+		return
+	}
 	if removeErr := ws.watcher.Remove(oldResolvedCfgDir); removeErr != nil {
 		ws.logger.Printf("failed to remove old watch for old symlink-resolved directory: %q: %s",
 			oldResolvedCfgDir, removeErr)
